@@ -145,7 +145,7 @@ fn gen_advance(rng: &mut Rng, g: &GenState, sets: &Sets, chaotic: bool) -> u128 
     let now_ns = g.now.as_ns();
     let to_next_minute = 60_000_000_000u128 - now_ns % 60_000_000_000u128;
     let kind = if chaotic {
-        rng.weighted(&[2, 2, 3, 4, 6, 2, 1])
+        rng.weighted(&[2, 2, 3, 4, 6, 2, 1, 1])
     } else {
         4
     };
@@ -195,7 +195,17 @@ fn gen_advance(rng: &mut Rng, g: &GenState, sets: &Sets, chaotic: bool) -> u128 
             let want = m as u128 * 60_000_000_000 + rng.below(120_000_000_000) as u128;
             want.saturating_sub(now_ns)
         }
-        _ => rng.range(60, 3 * 366 * 86400) as u128 * 1_000_000_000,
+        6 => rng.range(60, 3 * 366 * 86400) as u128 * 1_000_000_000,
+        _ => {
+            // the clock was wrong, or the machine was switched off, for years: a jump of a whole
+            // number of years (often a multiple of the leap and weekday cycles) give or take weeks
+            let years = match rng.below(4) {
+                0 => *rng.pick(&[4i64, 5, 6, 11, 12, 28, 40, 100, 200, 400]),
+                _ => rng.range(1, 30),
+            };
+            let secs = years * 31_556_952 + rng.range(-40 * 86400, 40 * 86400);
+            secs.max(0) as u128 * 1_000_000_000
+        }
     }
 }
 
